@@ -28,6 +28,12 @@ CHECKS = {
  "C16": ("exploration", "TLC trace validation of world equality",
          "== is logged for every ordered pair of live worlds after every event; TLC checks reflexivity, symmetry, eq => same identifiers/values/resources, and eq right after clone and round trip; twins that are then mutated exercise the contrapositive.",
          "<=3 live worlds.", "6 C16"),
+ "C03": ("exploration", "specification-derived query family executed on real Worlds, every result validated by TLC against the query semantics of spec/Access.tla evaluated on the reference map",
+         "132 generated queries (view kinds alone and pairwise, orders, identifier view, nested filters, views as filters, World::entry, every Entries super/sub-view pairing, iteration combined with entry views) are run at random points of random histories; TLC checks the result set or multiset, per-item values and identities, None exactly when absent, writes visible on exactly the matched entities, and lo <= remaining <= hi for every size_hint.",
+         "The family is finite and fixed; zero-sized and 1-byte components are compared by value.", "6 C03"),
+ "C09": ("exploration", "par_query results on rayon pools of 1-16 threads validated by TLC against the sequential query semantics",
+         "The parallel-capable part of the query family is run with par_query on worlds with many, empty, short and long tables under pools of 1,2,3,4,8,16 threads; TLC requires the multiset of results to equal the reference answer, every entity once, writes equal to the sequential semantics, and pairwise distinct addresses among mutably yielded values. rayon's stealing is sampled, not enumerated (DESIGN section 10).",
+         "Split patterns are those rayon produces for the sampled pool sizes.", "6 C09"),
  "C07": ("model_checking", "TLC model checking of the run-time staging model + TLC trace validation of every admissible execution order of generated schedules (deterministic fork/join shim) and of real rayon runs",
          "spec/Schedule.tla (stage-by-stage fork, add-on scan, joins) is checked for ExactlyOnce and SeqEquivalent over all schedules of <=3 tasks x 8 world contents x all execution orders; 136 (quick) / ~750 (thorough) generated schedules over 17 task kinds are executed on real Worlds in every order the fork/join structure admits and on rayon pools of 1/2/4/8 threads, and TLC requires every task exactly once, conflicting tasks in declared order, and final world, resources and per-task observations equal to running the tasks one by one on a twin world.",
          "The shim reports rayon::join faithfully; bounded schedule length (2-4 tasks) and alphabet.", "6 C07"),
@@ -51,7 +57,7 @@ def main():
             "add_only": True,
         },
         "engines": [
-            {"name": "world", "path": "tools/pipe_world.py", "serves_properties": ["C01", "C02", "C04", "C06", "C10", "C13", "C15", "C16"],
+            {"name": "world", "path": "tools/pipe_world.py", "serves_properties": ["C01", "C02", "C03", "C04", "C06", "C09", "C10", "C13", "C15", "C16"],
              "kind_free_text": "spec/WorldStore.tla + MCWorld.tla model-checked by TLC; harness/worlddrv executes histories on real Worlds; spec/TraceWorld.tla validates every event"},
             {"name": "sched", "path": "tools/pipe_sched.py", "serves_properties": ["C07", "C08", "C12"],
              "kind_free_text": "spec/Schedule.tla + MCSchedule.tla model-checked by TLC; generated schedule bins run under the brood_verif fork/join shim; spec/TraceSchedule.tla validates every run"},
